@@ -10,7 +10,7 @@ import (
 	"bytes"
 	"encoding/hex"
 	"fmt"
-	"runtime"
+	"runtime/metrics"
 	"strconv"
 	"strings"
 	"unsafe"
@@ -292,12 +292,19 @@ func emptyOf(kind string) (any, uint32, bool) {
 	return m, 0, true
 }
 
+var allocSample = []metrics.Sample{{Name: "/gc/heap/allocs:bytes"}}
+
+func heapAllocs() uint64 {
+	metrics.Read(allocSample)
+	return allocSample[0].Value.Uint64()
+}
+
+// measure returns the bytes allocated on the Go heap while f runs (cumulative allocation counter of
+// the runtime, the same quantity as runtime.MemStats.TotalAlloc, read without stopping the world).
 func measure(f func()) uint64 {
-	var m1, m2 runtime.MemStats
-	runtime.ReadMemStats(&m1)
+	a := heapAllocs()
 	f()
-	runtime.ReadMemStats(&m2)
-	return m2.TotalAlloc - m1.TotalAlloc
+	return heapAllocs() - a
 }
 
 func allocTok(n uint64) string {
